@@ -1,22 +1,55 @@
 open Model
 open Util
 
-(* parsing and printing only: the decision is computed by the extracted build_a / build_v *)
+(* parsing and printing only: the decision is computed by the extracted build_a / build_v.
+   NOTE: the numeric suffixes of extracted constructors (UnexpectedEof1, Ok1, ...) follow the order in
+   which the single-file extraction meets the err/res types of the imported theories. *)
 let err_of = function
-  | "UnexpectedEof" -> UnexpectedEof | "InvalidInput" -> InvalidInput | "InvalidData" -> InvalidData
+  | "UnexpectedEof" -> UnexpectedEof1 | "InvalidInput" -> InvalidInput1 | "InvalidData" -> InvalidData1
   | _ -> OtherErr
 
 (* "Eof" = the decoder ended cleanly (read returned Ok(0)); anything else is its error kind *)
 let stop_of = function "Eof" -> None | s -> Some (err_of s)
 
 let str_err stop = function
-  | UnexpectedEof -> "UnexpectedEof" | InvalidInput -> "InvalidInput" | InvalidData -> "InvalidData"
+  | UnexpectedEof1 -> "UnexpectedEof" | InvalidInput1 -> "InvalidInput" | InvalidData1 -> "InvalidData"
   | OtherErr -> stop   (* the model carries other kinds opaquely; the case names it *)
 
 let comp_of = function 'n' -> Some CNone | 'b' -> Some CBgzf | _ -> None
 let afmt_of = function 's' -> Some Sam | 'b' -> Some Bam | 'c' -> Some Cram | _ -> None
 let vfmt_of = function 'v' -> Some Vcf | 'b' -> Some Bcf | _ -> None
 let comp_chr fonly c = if fonly then "~" else (match c with CNone -> "n" | CBgzf -> "b")
+
+(* ---- round 7: header arguments of the variant conversion kinds (format of C10's `vb` kind) ---- *)
+let ascii s = List.init (String.length s) (fun i -> n_of_int (Char.code s.[i]))
+let num_of s = match s with
+  | "A" | "R" | "G" | "." -> NOther
+  | _ -> NCount (n_of_int (int_of_string s))
+let ty_of s = match s with
+  | "I" -> TInteger | "F" -> TFloat | "B" -> TFlag | "C" -> TCharacter | "S" -> TString
+  | _ -> failwith "type"
+let ftab (s : string) =
+  if s = "-" then [] else
+  List.map (fun p -> match split_on ':' p with
+    | [b; h; p] -> (n_of_dec b, (bytes_of_hex h, n_of_dec p)) | _ -> failwith "ftab") (split_on ',' s)
+let fmt_of tab b = try fst (List.assoc b tab) with Not_found -> ascii "?"
+let prs_of tab t = try Some (snd (snd (List.find (fun (_, (x, _)) -> x = t) tab))) with Not_found -> None
+let vctx a =
+  let idx i = if i = "-" then None else Some (nat_of_int (int_of_string i)) in
+  let defs s = if s = "-" then [] else
+    List.map (fun d -> match split_on '/' d with [k; n; t; i] -> (k, n, t, i) | _ -> failwith "def") (split_on ',' s) in
+  let pairs s = if s = "-" then [] else
+    List.map (fun d -> match split_on '/' d with [k; i] -> (ascii k, idx i) | _ -> failwith "pair") (split_on ',' s) in
+  let infos = defs a.(1) and fmts = defs a.(3) in
+  let line_of (k, _, _, i) = (ascii k, idx i) in
+  let lines = List.map line_of infos @ pairs a.(2) @ List.map line_of fmts in
+  match build_strings lines, build_contigs (pairs a.(4)) with
+  | Some strings, Some contigs ->
+    let hd (k, n, t, _) = (ascii k, (num_of n, ty_of t)) in
+    let v44 = (a.(0) = "4.4" || a.(0) = "4.5") in
+    Some (strings, contigs, { h_v44 = v44; h_infos = List.map hd infos; h_formats = List.map hd fmts;
+                              h_nsamples = nat_of_int (int_of_string a.(5)) })
+  | _ -> None
 
 let handle kind a =
   match kind with
@@ -27,14 +60,14 @@ let handle kind a =
       let fonly = String.length kind = 3 in
       if kind.[1] = 'a' then
         (match build_a (comp_of cfg.[0]) (afmt_of cfg.[1]) w infl with
-         | Err e -> Some ("Err:" ^ str_err a.(3) e)
-         | Ok (f, c) ->
+         | Err1 e -> Some ("Err:" ^ str_err a.(3) e)
+         | Ok1 (f, c) ->
              let fs = (match f with Sam -> "s" | Bam -> "b" | Cram -> "c") in
              Some ("Ok:" ^ fs ^ ":" ^ comp_chr fonly c))
       else
         (match build_v (comp_of cfg.[0]) (vfmt_of cfg.[1]) w infl with
-         | Err e -> Some ("Err:" ^ str_err a.(3) e)
-         | Ok (f, c) ->
+         | Err1 e -> Some ("Err:" ^ str_err a.(3) e)
+         | Ok1 (f, c) ->
              let fs = (match f with Vcf -> "v" | Bcf -> "b") in
              Some ("Ok:" ^ fs ^ ":" ^ comp_chr fonly c))
   | "wk" | "wkv" | "wp" | "wpv" ->
@@ -42,7 +75,7 @@ let handle kind a =
       let cfg = a.(1) in
       let aname = function KSam -> "Sam" | KSamGz -> "SamGz" | KBam -> "Bam" | KBamRaw -> "BamRaw" | KCram -> "Cram" in
       let vname = function KBcf -> "Bcf" | KBcfRaw -> "BcfRaw" | KVcf -> "Vcf" | KVcfGz -> "VcfGz" in
-      let show_a = function Ok k -> "Ok:" ^ aname k | Err e -> "Err:" ^ str_err "Other" e in
+      let show_a = function Ok1 k -> "Ok:" ^ aname k | Err1 e -> "Err:" ^ str_err "Other" e in
       (match kind with
        | "wk" -> Some (show_a (build_writer_a api (comp_of cfg.[0]) (afmt_of cfg.[1])))
        | "wp" -> Some (show_a (build_writer_path_a api (comp_of cfg.[0]) (afmt_of cfg.[1]) (bytes_of_hex a.(2))))
@@ -166,6 +199,51 @@ let handle kind a =
       (* no float fields in the generated records: the float text oracles are never consulted *)
       if kind = "cvsb" then Some (show (convert_sam_bam (fun _ -> None) (fun _ -> None) refs (bytes_of_hex a.(1))))
       else Some (show (convert_bam_sam (fun _ -> []) (fun _ -> []) refs (bytes_of_hex a.(1))))
+  | "cvfb" | "cvfz" ->
+      let t = bytes_of_hex a.(0) in
+      let r = if kind = "cvfb" then convert_sam_bam_bytes (fun _ -> None) (fun _ -> None) t
+              else convert_sam_bam_bgzf_l0 (fun _ -> None) (fun _ -> None) t in
+      (match r with
+       | CfOk file ->
+           if kind = "cvfb" then Some ("Ok:" ^ hex_of_bytes file)
+           else
+             let sizes = String.concat "," (List.map dec_of_n (bgzf_block_sizes inflate file)) in
+             (match bgzf_unwrap inflate file with
+              | Some payload -> Some ("Ok:" ^ sizes ^ ":" ^ hex_of_bytes payload)
+              | None -> Some "ModelUnreadable")
+       | CfHeaderErr | CfReadErr _ | CfWriteErr -> Some "Err")
+  | "cvbf" | "cvbz" ->
+      let f = bytes_of_hex a.(0) in
+      let r = if kind = "cvbf" then convert_bam_sam_file (fun _ -> []) (fun _ -> []) f
+              else convert_bam_sam_bgzf_l0 (fun _ -> []) (fun _ -> []) f in
+      (match r with
+       | CbOk text -> Some ("Ok:" ^ hex_of_bytes text)
+       | CbForeign _ -> Some "Foreign"
+       | CbNoFuel -> Some "NoFuel"
+       | CbBgzfErr | CbHeaderErr _ | CbReadErr _ | CbWriteErr -> Some "Err")
+  | "cvvb" | "cvbv" | "cvvl" | "cvbl" ->
+      (match vctx a with
+       | None -> Some "HeaderErr"
+       | Some (strings, contigs, h) ->
+         let tab = ftab a.(6) in
+         let v45 = a.(7) = "1" in
+         let show = function
+           | VvOk out -> "Ok:" ^ hex_of_bytes out
+           | VvPanic -> "Panic"
+           | VvReadErr | VvSpanErr | VvWriteErr -> "Err" in
+         let showf = function
+           | VfOk out -> "Ok:" ^ hex_of_bytes out
+           | VfErr (_, VvPanic) -> "Panic"
+           | VfErr _ -> "Err" in
+         if kind = "cvvb" then Some (show (convert_vcf_bcf (prs_of tab) v45 strings contigs h (bytes_of_hex a.(8))))
+         else if kind = "cvbv" then Some (show (convert_bcf_vcf (fmt_of tab) strings contigs h (bytes_of_hex a.(8))))
+         else if kind = "cvvl" then
+           let lines = if a.(8) = "_" then [] else List.map bytes_of_hex (split_on ',' a.(8)) in
+           Some (showf (convert_vcf_bcf_lines (prs_of tab) v45 strings contigs h (nat_of_int 0) lines))
+         else
+           let bs = bytes_of_hex a.(8) in
+           Some (showf (convert_bcf_vcf_blocks (fmt_of tab) strings contigs h
+                          (nat_of_int (List.length bs + 1)) (nat_of_int 0) bs)))
   | _ -> None
 
 let () = run_driver handle
